@@ -360,6 +360,20 @@ theorem cp2k_edit_idempotent_absent (u : Upd) (st st1 : St) (hwf : RefOk st) (ha
     (h1 : updateNode u st = .ok st1) : updateNode u st1 = .ok st1 :=
   Infretis.Cp2k.cp2k_edit_idempotent_absent u st st1 hwf habs hr hl hok h1
 
+set_option maxRecDepth 4000 in
+/-- falsy-but-valid values are values: a section that has to be created keeps `BACKUP_COPIES 0`
+    and `FILENAME ` (empty string); only Python `None` (`none`) gives the bare flag.  In the model a
+    value reaches `fmtEntry` as `Option Str` = `str(value)`, so `some "0"`, `some ""`,
+    `some "False"` are all different from `none`. -/
+theorem cp2k_created_section_keeps_falsy_values :
+    updateInput tplMD [updZero] [] = .ok "&MOTION\n  &MD\n    STEPS 10\n  &END MD\n  &PRINT\n    &RESTART\n      BACKUP_COPIES 0\n    &END RESTART\n  &END PRINT\n&END MOTION\n".toList ∧
+    updateInput tplMD [updEmpty] [] = .ok "&MOTION\n  &MD\n    STEPS 10\n  &END MD\n  &PRINT\n    &RESTART\n      FILENAME \n    &END RESTART\n  &END PRINT\n&END MOTION\n".toList :=
+  ⟨Infretis.Cp2k.cp2k_created_section_keeps_zero, Infretis.Cp2k.cp2k_created_section_keeps_empty⟩
+
+example : updZero.data.map fmtEntry = ["BACKUP_COPIES 0".toList] ∧ updEmpty.data.map fmtEntry = ["FILENAME ".toList] ∧
+    fmtEntry ("K".toList, some "False".toList) = "K False".toList ∧ fmtEntry ("K".toList, none) = "K".toList ∧
+    dget updZero.target stMD.ref = none := by decide
+
 /-- the repaired behaviour on the four former witnesses -/
 theorem cp2k_fixed_witnesses :
     (updateInput tplMD [updSettings] [] = .ok "&MOTION\n  &MD X\n    STEPS 10\n  &END MD\n&END MOTION\n".toList ∧
